@@ -120,7 +120,7 @@ impl Property for C24 {
         Meta {
             id: "C24",
             level: "exploration",
-            rule: "one evaluation = one concurrent execution, under the turnstile scheduler (real threads, one runnable, next chosen by the PRNG at every stream call / progress callback / explicit point), of 2-6 caller threads each running a seeded list of 2-5 operations (sign, read, add-ingredient on JPEG/PNG/MP4; Settings builder calls; deprecated thread-local Settings::from_toml; Context::cancel on the one cancellable context) over a pool of shared Arc<Context>s with different settings (trust anchors / none / cancellable) and private contexts. Reference = the same per-thread lists run one thread after another on fresh equally configured contexts without the cancel. Oracle: every operation on a never-cancelled context yields the reference outcome (same error kind, or same report/codes); operations on the cancellable context yield the reference outcome or OperationCancelled, and those invoked after cancel() had returned (global event sequence) yield OperationCancelled; the cancelled context still reports is_cancelled at the end; each thread's legacy thread-local settings at the end equal the reference's. Every eighth run is a cancel sweep instead: operation A (read / add-ingredient / sign) on a fresh context with Context::cancel delivered at every one of its stream calls and progress callbacks in turn (the schedules in which the canceller runs exactly there), then a read B on the same context: A yields its sequential result or OperationCancelled, the context reports is_cancelled, B yields OperationCancelled. Non-trivial = at least two threads interleaved; distinct = interleaving signature (hash of the (thread, seam label) sequence)",
+            rule: "one evaluation = one concurrent execution, under the turnstile scheduler (real threads, one runnable, next chosen by the PRNG at every stream call / progress callback / explicit point), of 2-6 caller threads each running a seeded list of 2-5 operations (sign, read, add-ingredient on JPEG/PNG/MP4; Settings builder calls; deprecated thread-local Settings::from_toml; Context::cancel on the one cancellable context) over a pool of shared Arc<Context>s with different settings (trust anchors / none / cancellable) and private contexts. Reference = the same per-thread lists run one thread after another on fresh equally configured contexts without the cancel. Oracle: every operation on a never-cancelled context yields the reference outcome (same error kind, or same report/codes); operations on the cancellable context yield the reference outcome or OperationCancelled, and those invoked after cancel() had returned (global event sequence) yield OperationCancelled; the cancelled context still reports is_cancelled at the end; each thread's legacy thread-local settings at the end equal the reference's. Every eighth run is a cancel sweep instead: operation A (read / add-ingredient / sign) on a fresh context with Context::cancel delivered at every one of its stream calls and progress callbacks in turn (the schedules in which the canceller runs exactly there), then a read B on the same context: A yields its sequential result or OperationCancelled, the context reports is_cancelled, B yields OperationCancelled. Every eighth run (another residue) interleaves two operations on one context at a checkpoint: while A is paused in its k-th progress callback the context is cancelled and a read B runs to its end on the same context, for every k; both end with the cancellation error. Non-trivial = at least two threads interleaved; distinct = interleaving signature (hash of the (thread, seam label) sequence)",
             assumptions: &["scheduling granularity is the seam call, not the memory model", "contexts are created before the threads start (Context::new snapshots thread-local legacy settings of the creating thread)"],
             real: &["c2pa Context (Arc-shared), Builder, Reader, Settings, thread-local legacy settings, OpenSSL mutex, lazy statics"],
             stubbed: &["thread scheduling (turnstile)", "caller streams (SimStream)"],
@@ -139,6 +139,12 @@ impl Property for C24 {
         let mut out = RunOut::default();
         if rc.idx % 8 == 7 {
             return cancel_sweep(rc);
+        }
+        if rc.idx % 8 == 3 {
+            let mut out = RunOut::default();
+            interleaved_cancel(rc, &mut out, "C24", 0);
+            out.digest = hash_str(&format!("interleave|{}", out.evals));
+            return out;
         }
         let mut r = rc.rng.fork("w");
         let n_threads = r.usize(2, 6);
@@ -384,4 +390,90 @@ fn cancel_sweep(rc: &mut RunCtx) -> RunOut {
     out.sample = Some(json!({"scenario": format!("cancel sweep {tag}"), "stream_calls": n_ops, "callbacks": n_cb}));
     out.digest = hash_str(&format!("{tag}|{n_ops}|{n_cb}"));
     out
+}
+
+/// Two operations on one shared context, interleaved at a checkpoint: while A is paused in its
+/// k-th progress callback the context is cancelled and a second operation B (a read) runs to its
+/// end on the same context; then A goes on.  Both were running or started after cancel() returned,
+/// so both end with the cancellation error, whichever of them reaches a checkpoint first.
+/// Reported under `prop` ("C23" / "C24").
+pub fn interleaved_cancel(rc: &mut RunCtx, out: &mut RunOut, prop: &str, sub_base: u64) {
+    let mut r = rc.rng.fork("interleave");
+    let fmt = *r.pick(&[Fmt::Jpeg, Fmt::Png, Fmt::Mp4]);
+    let op = *r.pick(&[Op::Read, Op::AddIngredient, Op::Sign]);
+    let base = Arc::new(sdk::make_context(&json!({})));
+    c2pa::verif::set_random_seed(Some(hash_str(&format!("interleave-{}-{}", rc.seed, rc.idx))));
+    let asset = assets::generate(fmt, &mut r);
+    let (sa, sb) = match (
+        ops::prepare(op, fmt, "ed25519", asset.clone(), sdk::simple_definition("il"), &base),
+        ops::prepare(Op::Read, fmt, "ed25519", asset, sdk::simple_definition("il"), &base),
+    ) {
+        (Ok(a), Ok(b)) => (a, Arc::new(b)),
+        _ => {
+            out.probe("interleave-prepare-failed");
+            return;
+        }
+    };
+    let vctx = Arc::new(sdk::make_context(&json!({})));
+    // callbacks of A, fault-free
+    let n_cb = {
+        let ctx = ops::make_ctx(&json!({}));
+        let world = stream::new_world(FaultPlan::default(), None);
+        ops::cb_reset(Some(world.clone()), None);
+        let _ = ops::exec(&sa, &ExecEnv { ctx: &ctx, verify_ctx: &vctx, world: &world, pend: None });
+        let n = ops::cb_take_log().len();
+        ops::cb_reset(None, None);
+        n
+    };
+    let tag = format!("{}+read:{}", op.name(), fmt.name());
+    for k in 1..=n_cb {
+        let sub = sub_base + k as u64;
+        if !rc.want_sub(sub) {
+            continue;
+        }
+        rc.mark(sub);
+        out.evals += 1;
+        out.fault("second_operation_interleaved_at_checkpoint");
+        out.keys.push(hash_str(&format!("interleave|{tag}|{k}")));
+        let ctx = ops::make_ctx(&json!({}));
+        let world = stream::new_world(FaultPlan::default(), None);
+        ops::cb_reset(Some(world.clone()), None);
+        let b_result: Arc<std::sync::Mutex<Option<Outcome>>> = Arc::new(std::sync::Mutex::new(None));
+        {
+            let (ctx2, vctx2, sb2, br) = (ctx.clone(), vctx.clone(), sb.clone(), b_result.clone());
+            let f: Arc<dyn Fn() + Send + Sync> = Arc::new(move || {
+                let w2 = stream::new_world(FaultPlan::default(), None);
+                let o = ops::exec(&sb2, &ExecEnv { ctx: &ctx2, verify_ctx: &vctx2, world: &w2, pend: None });
+                if let Ok(mut g) = br.lock() {
+                    *g = Some(o);
+                }
+            });
+            let c3 = ctx.clone();
+            ops::CB.with(|c| {
+                let mut c = c.borrow_mut();
+                c.flag_at = Some((k, c3));
+                c.nested_at = Some((k, f));
+            });
+        }
+        let a = sdk::guarded(|| ops::exec(&sa, &ExecEnv { ctx: &ctx, verify_ctx: &vctx, world: &world, pend: None }));
+        ops::cb_reset(None, None);
+        let b = b_result.lock().ok().and_then(|g| g.clone());
+        let a = match a {
+            Ok(a) => a,
+            Err(p) => {
+                out.violate(sub, &format!("panic:{}", p.split('|').next().unwrap_or("?")), "G1 no panic", json!({"scenario": tag, "k": k, "panic": p}));
+                continue;
+            }
+        };
+        let cancelled = |o: &Outcome| o.err_kind().map(|e| e.ends_with("OperationCancelled")).unwrap_or(false);
+        let b_ok = b.as_ref().map(cancelled).unwrap_or(true);
+        if !cancelled(&a) || !b_ok {
+            let who = if !cancelled(&a) { "paused-operation-completes" } else { "second-operation-completes" };
+            out.violate(sub, &format!("{}cancel-reaches-only-one-of-two-operations:{who}", if prop == "C24" { "" } else { "" }),
+                &format!("{prop} a cancelled context ends every operation running on it with the cancellation error"),
+                json!({"scenario": tag, "paused_at_callback": k, "of": n_cb, "paused_operation": a.brief(), "second_operation": b.map(|b| b.brief())}));
+        } else {
+            out.probe("interleave:both-cancelled");
+        }
+    }
 }
